@@ -3,6 +3,7 @@ import MesonModel.Sched.Model
 import MesonModel.Sched.Select
 import MesonModel.Sched.Report
 import MesonModel.Sched.Timeout
+import MesonModel.Sched.Args
 /- driver commands of area `sched` (C12) -/
 namespace Driver.Sched
 open MesonModel.Sched Driver
@@ -142,6 +143,17 @@ def handle (cmd : String) (fs : List String) : String :=
     match getTests suit (parseSlice slice) idx with
     | .ok l => showIdx (l.map (·.1))
     | .error .tooManySlices => "ERR:tooManySlices"
+  | "selectargs", [mainPrj, incl, excl, names, slice, tests, args] =>
+    let ts := parseTests tests
+    let idx := (List.range ts.length).zip ts
+    let suit := fun (p : Nat × TestDesc) =>
+      testSuitable (decodeStr mainPrj) (decodeStrList incl) (decodeStrList excl) (decodeStrList names) p.2
+    let pats := (decodeStrList args).map argPattern
+    match getTestsArgs suit (fun (p : Nat × TestDesc) q => patMatches p.2 q) pats (parseSlice slice) idx with
+    | .ok l => showIdx (l.map (·.1))
+    | .error .tooManySlices => "ERR:tooManySlices"
+    | .error .noMatch => "ERR:noMatch"
+  | "glob", [pat, s] => boolStr (globMatch (decodeStr pat) (decodeStr s))
   | "slice", [len, i, n] => showIdx (pySlice (List.range (natOf len)) (natOf i) (natOf n))
   | _, _ => "bad-op"
 
